@@ -27,7 +27,7 @@ ASSUMPTIONS = [
     "dual averaging reference: Hoffman & Gelman (2014) Algorithm 5 recursion in plain floats, agreement to 1e-11 relative",
     "variance/covariance reference: exact rationals; tolerance 20*n*eps*(1+|mean|/std) relative (Welford/Chan conditioning)",
 ]
-REQUIRED = {"da_updates_compared": 1000, "var_partitions": 100, "cov_partitions": 100, "init_searches": 20}
+REQUIRED = {"constrained_refreshes": 30, "da_updates_compared": 1000, "var_partitions": 100, "cov_partitions": 100, "init_searches": 20}
 BUDGET_S = {"quick": 90, "thorough": 900}
 EPS = 2.220446049250313e-16
 
@@ -42,6 +42,8 @@ def gen_cases(tier: str, seed: int):
     n = {"quick": 640, "thorough": 40000}[tier]
     for i in range(n):
         yield {"kind": ["da", "var", "cov", "init"][i % 4], "seed": [seed, i]}
+    for i in range({"quick": 60, "thorough": 3000}[tier]):
+        yield {"kind": "constrained_refresh", "seed": [seed, 10**6 + i], "which": ["var", "cov"][i % 2]}
 
 
 # ------------------------------------------------------------------ dual averaging
@@ -298,8 +300,64 @@ def case_moments(case, obs, which) -> None:
     obs.sample({"kind": which, "n": n, "dim": dim, "chain_sizes": [len(pp) for pp in parts], "offset_class": off_class, "reg": kw})
 
 
+def case_constrained_refresh(case, obs) -> None:
+    """The momenta refreshed by finalize must have the law implied by the NEW metric also for a constrained system, whose
+    momentum draw is L z projected onto the cotangent space (a projection that itself depends on the metric), on chain
+    states that were in use - with whatever they cache - under the old metric."""
+    import mici
+
+    rng = np.random.default_rng([abs(int(s)) for s in case["seed"]])
+    which = case["which"]
+    dim = int(rng.integers(2, 5))
+    spec = {"sys": str(rng.choice(["constrained", "constrained_nh", "gaussian_constrained"])), "dim": dim, "seed": int(rng.integers(0, 50)),
+            "metric": "none", "constr": str(rng.choice(["sphere", "quadric", "hyperplane", "arctan_quadric"])), "conv": {}}
+    m = zoo.Model(spec)
+    cls = mici.adapters.OnlineVarianceMetricAdapter if which == "var" else mici.adapters.OnlineCovarianceMetricAdapter
+    adapter = cls()
+    transition = SimpleNamespace(system=m.system, integrator=None)
+    n_chain = int(rng.integers(1, 4))
+    adapt_states, chain_states = [], []
+    warm = np.random.default_rng(int(rng.integers(0, 2**31)))
+    for _c in range(n_chain):
+        q, p = m.random_point(rng)
+        st = m.state(q, p)
+        a = adapter.initialize(st, transition)
+        for _i in range(int(rng.integers(3, 9))):
+            q, p = m.random_point(rng)
+            st.pos = q
+            st.mom = m.system.sample_momentum(st, warm)  # what every sampler iteration does with the chain state
+            if rng.integers(0, 2):
+                _ = m.system.h(st)
+            adapter.update(a, st, {}, transition)
+        adapt_states.append(a)
+        chain_states.append(st)
+    zs = [rng.standard_normal(dim) for _ in range(n_chain)]
+    rngs = [ScriptedNormal([z]) for z in zs]
+    adapter.finalize(adapt_states, chain_states, transition, rngs)
+    obs.count("constrained_refreshes")
+    metric = m.system.metric
+    m.metric_dense = np.array(metric.array, dtype=float)
+    lsq = np.array(metric.sqrt.array, dtype=float) if hasattr(metric.sqrt, "array") else np.array(metric.sqrt @ np.identity(dim))
+    for i, st in enumerate(chain_states):
+        q = np.asarray(st.pos, dtype=float)
+        want = m.ref_projector(q) @ (lsq @ zs[i])
+        got = np.asarray(st.mom, dtype=float)
+        e = float(np.max(np.abs(got - want))) / (1 + float(np.max(np.abs(want))))
+        obs.maxi("constrained_refresh.error", e)
+        if e > 1e-9:
+            j = m.constraint.jac(q)
+            cot = float(np.max(np.abs(j @ np.linalg.solve(m.metric_dense, got))))
+            obs.violation(f"{which}:momentum-refresh:constrained-system",
+                          f"momentum assigned by {cls.__name__}.finalize to chain {i} differs from P_new L_new z by {e:.3e} "
+                          f"(|J M_new^-1 p| = {cot:.3e}); the chain state had been used under the old metric; spec={spec}")
+    obs.token("constrained_refresh", which, spec["sys"], spec["constr"], n_chain)
+
+
 def run_case(case, obs) -> None:
     k = case["kind"]
+    if k == "constrained_refresh":
+        case_constrained_refresh(case, obs)
+        return
     if k == "da":
         case_da(case, obs)
     elif k == "init":
